@@ -26,7 +26,7 @@ ASSUMPTIONS = [
 GATES = {
     "bit0_set_and_clear": 1, "bit1_set_and_clear": 1, "bit2_set_and_clear": 1, "bit6_set_and_clear": 1,
     "bit7_set_and_clear": 1, "bits_6_and_7_together": 1, "step_kind_repeated_twice": 1, "step_kind_repeated_3x": 1,
-    "steps_monitored": 100, "validation_step_on_pixels_already_filled": 2, "cost_volume_flags_watched_during_later_steps": 50, "cause_oracle_pixels": 10000, "pixels_computable_at_sub_pixel_samples_only": 5,
+    "steps_monitored": 100, "run_after_an_in_place_edit_of_the_masks": 2, "validation_step_on_pixels_already_filled": 2, "cost_volume_flags_watched_during_later_steps": 50, "cause_oracle_pixels": 10000, "pixels_computable_at_sub_pixel_samples_only": 5,
 }
 REFINE, FILL_OCC, FILL_MIS, OCC, MIS, B11 = 8, 16, 32, 256, 512, 2048
 
@@ -174,6 +174,19 @@ def _cause(case, ctx):
         if ev["kind"] == "disparity":
             snaps["disp"] = trace.snapshot(mm, ("left_disparity", "right_disparity"))
 
+    if case.get("i") is not None and case["i"] % 4 == 1 and "msk" in left and "msk" in right:
+        # history: the same dataset objects have already been through a run, then their masks were edited IN PLACE (what a
+        # tiling driver that refills its buffers does); the judged run is the second one
+        m_first = pipes.new_machine()
+        pipes.check(m_first, pipe, left, right)
+        pandora.run(m_first, left, right, pipes.checked_cfg(m_first, pipe))
+        for ds_ in (left, right):
+            mk = ds_["msk"].data
+            y0, x0 = int(rng.integers(0, rows)), int(rng.integers(0, cols))
+            mk[y0:y0 + 3, x0:x0 + 4] = 1
+            mk[(y0 + 5) % rows, :] = np.where(mk[(y0 + 5) % rows, :] == 1, 0, mk[(y0 + 5) % rows, :])
+        desc["history"] = "second run on the same dataset objects after an in-place edit of their masks"
+        ctx.gate("run_after_an_in_place_edit_of_the_masks")
     trace.Tracer(m, on_after=after)
     lc, rc = gen.deep_copy_ds(left), gen.deep_copy_ds(right)
     pandora.run(m, left, right, cfg)
